@@ -370,9 +370,9 @@ def run(ctx: Ctx) -> None:
     a = Automaton(ctx)
     a.explore()
     ctx.analysed["automaton"] = {"states": len(a.states_seen), "transitions": a.transitions, "commit_executions": len(a.commits)}
-    rule_r1(ctx)
-    rule_r2(ctx, a)
-    rule_r3_r4(ctx, a)
-    rule_r5_r6(ctx)
+    ctx.attempt(rule_r1, ctx)
+    ctx.attempt(rule_r2, ctx, a)
+    ctx.attempt(rule_r3_r4, ctx, a)
+    ctx.attempt(rule_r5_r6, ctx)
     ctx.assume("a definition is evaluated once (result cached, C09.R4), so each @print is met once")
     ctx.assume("errors raised while a statement is still being evaluated are stamped with the parser's current line, which lies within the statement")
